@@ -284,22 +284,49 @@ def line_end_guards(ctx, f):
                     'a branch of _exec_print no longer appends the line '
                     'break', f.file, f.line)
     # zone width
-    zones = [n for n in ast.walk(f.node)
-             if isinstance(n, ast.BinOp) and isinstance(n.op, ast.Sub) and
-             isinstance(n.right, ast.BinOp) and
-             isinstance(n.right.op, ast.Mod)]
+    # the padding width: the expression assigned to the name that is then
+    # multiplied with ' ' in the comma branch
+    zones = []
+    for n in ast.walk(f.node):
+        if isinstance(n, ast.If) and any(
+                isinstance(x, ast.BinOp) and isinstance(x.op, ast.Mod)
+                for s_ in n.body for x in ast.walk(s_)):
+            for s_ in n.body:
+                if isinstance(s_, ast.Assign) and \
+                        isinstance(s_.targets[0], ast.Name) and any(
+                            isinstance(x, ast.BinOp) and
+                            isinstance(x.op, ast.Mod)
+                            for x in ast.walk(s_.value)):
+                    zones.append(s_.value)
     rule2 = 'C17.print-zone-arithmetic'
     ctx.rule(rule2, 'a comma pads to the next 14-column zone: the padding '
              'is W - (len(buf) % W) with one constant W = 14')
+    from .. import opsem
     for z in zones:
-        w1, w2 = const(z.left), const(z.right.right)
         ctx.instance(rule2, f'{f.file}:TerminalDevice._exec_print:zone',
                      sample={'expr': unparse(z)})
-        if w1 != w2 or w1 != 14 or not unparse(z.right.left).startswith(
-                'len('):
+        # replace len(<buffer>) by the column c and compare with the
+        # language rule on every column 0..41
+        lens = [x for x in ast.walk(z) if isinstance(x, ast.Call) and
+                dotted(x.func) == 'len']
+        ok = len(lens) >= 1
+        if ok:
+            e = opsem.subst(z, {})
+            txt = unparse(z)
+            for ln in lens:
+                txt = txt.replace(unparse(ln), 'c')
+            try:
+                e = opsem.parse_expr(txt)
+                ok = all(opsem._ev(e, {'c': c}) == 14 - (c % 14)
+                         for c in range(0, 42))
+            except Exception:
+                ok = False
+        if not ok:
             ctx.finding(rule2, f'{f.file}:TerminalDevice._exec_print:zone',
-                        f'zone padding is {unparse(z)}; expected '
-                        f'14 - len(buf) % 14', f.file, z.lineno)
+                        f'zone padding is {unparse(z)}; a comma must pad '
+                        f'with 14 - (column mod 14) blanks, i.e. a full zone '
+                        f'when the column is already on a zone boundary',
+                        f.file, z.lineno)
     ctx.floor('zone padding expressions', len(zones), 1)
 
 
